@@ -557,7 +557,7 @@ def run(ctx):
     core.import_nitime()
     ctx.check_props()
     # quick: 3 corpus inputs + 9 Welch + 2 multitaper + 2 adaptive multitaper + 2 periodogram
-    kinds = (["welch"] * 9 + ["mt", "mt_adaptive", "periodogram"] * 2) if ctx.quick else [None] * 110
+    kinds = (["welch"] * 9 + ["mt", "mt_adaptive", "periodogram"] * 2) if ctx.quick else [None] * 90
     if os.environ.get("C08_DEV_KINDS") is not None:      # development aid: a reduced run
         kinds = [k for k in os.environ["C08_DEV_KINDS"].split(",") if k]
     chans = [2, 3, 4, 5, 3, 2, 4, 5, 3] + [None] * len(kinds)     # quick: every channel count occurs
